@@ -257,7 +257,6 @@ def run(ctx):
         ctx.extra['all_pairs_pool'] = len(pool)
     for k in ('wire', 'canonical-uri', 'uri', 'normalize', 'is-prefix-true', 'is-prefix-false', 'name-order',
               'component-order'):
-        if ctx.events.get(k, 0) == 0:
-            ctx.inconclusive(f'monitor {k} observed nothing')
+        ctx.need_event(k)
     ctx.assumptions = ['URI convention is the one python-ndn documents (no extra-period rule; = and % escaped)',
                        'shorthand URI round trip is demanded only for canonically encoded typed numbers']
